@@ -142,6 +142,15 @@ func (o *c06) Step(r *StepRec) []Violation {
 	if r.Action.Kind != KEndBlock {
 		return o.take()
 	}
+	// the context keeps naming the providers (and cap, timeout, threshold) its consumer gave it
+	for _, cid := range sortedKeys(pre.Ctxs) {
+		p0 := pre.Ctxs[cid]
+		if p1, ok := post.Ctxs[cid]; ok {
+			if !sameAddrs(provHexes(p0), provHexes(p1)) || !p0.ServiceFeeCap.IsEqual(p1.ServiceFeeCap) || p0.Timeout != p1.Timeout || p0.ResponseThreshold != p1.ResponseThreshold {
+				o.fail("c06:config", "end-block changed the providers/cap/timeout/threshold of context %s: providers %v -> %v", short(cid), shortAll(provHexes(p0)), shortAll(provHexes(p1)))
+			}
+		}
+	}
 	cands := batchCandidates(pre, r.Height)
 	candSet := map[string]bool{}
 	outcomes := map[string]bool{}
